@@ -16,3 +16,8 @@ func HarnessSmoke_ugc() {
 	_, ok := p.elsAndAttrs["a"]
 	verifAssert(ok, "a-allowed")
 }
+
+func HarnessSmoke_policy() {
+	p := symLoopPolicy()
+	verifNoteBool("x", p.addSpaces)
+}
